@@ -49,6 +49,7 @@ func SortTable(t gpbft.PowerEntries) {
 // TableBytes is the canonical (CBOR) form of a table.
 func TableBytes(t gpbft.PowerEntries) []byte {
 	var buf bytes.Buffer
+	buf.Grow(16 + 96*len(t))
 	if err := t.MarshalCBOR(&buf); err != nil {
 		panic(fmt.Sprintf("vstore: cannot encode power table: %v", err))
 	}
